@@ -154,6 +154,9 @@ def gen_script(rng, maxlen):
         s.files[sub + cls + ".god"] = some_text(cls, rng, n)
     if rng.chance(1, 2):
         s.files["notes.txt"] = "not gold at all\n"
+    if rng.chance(1, 12):
+        # a Gold file whose NAME is not valid UTF-8 (a Latin-1 name on disk)
+        s.files["sub/aLatin\udce9.god" if rng.chance(1, 2) else "aLatin\udce9\udcef.god"] = good_text("aLatin", None, [], 77, rng)
     core_ws = (not nogod) and rng.chance(1, 5)
     if core_ws:
         # "core" directories (WAM*, WF*): the server analyses their files in a start-up job of the pool while the
@@ -175,12 +178,17 @@ def gen_script(rng, maxlen):
         s.ghosts = [rng.choice(gods)]
     never = ["nowhere.god", "sub/ghost.god", "new unsaved.god"]
 
+    # requests are not aimed at files whose name is not UTF-8 (the server answers them with an error — it cannot map
+    # the uri back to the bytes of the name; that is outside this property and outside the model); such a file
+    # is only PRESENT in the workspace
+    utf8 = sorted(r_ for r_ in s.files if not any(0xDC80 <= ord(ch) <= 0xDCFF for ch in r_))
+
     def target():
         r = rng.below(100)
         if nogod and (r < 55 or r >= 94 or (70 <= r < 80)):
             r = 60
         if r < 55:
-            return "F" + esc(rng.choice(sorted(s.files))), "file"
+            return "F" + esc(rng.choice(utf8)), "file"
         if r < 70:
             return "F" + esc(rng.choice(never)), "file"
         if r < 80 and s.ghosts:
@@ -189,7 +197,7 @@ def gen_script(rng, maxlen):
             return "F" + esc(rng.choice(s.dirs)), "dir"
         if r < 94:
             return "O" + esc(rng.choice(OTHER_URIS)), "other"
-        return "F" + esc(rng.choice(sorted(s.files))), "file"
+        return "F" + esc(rng.choice(utf8)), "file"
 
     def cls_of(t):
         from ..core import unesc
@@ -681,7 +689,7 @@ RULE = ("scripts = 4 corpus witnesses + generated sessions: workspace of 2-5 cla
 
 
 def replay(ctx):
-    d = json.load(open(ctx.replay))
+    d = json.load(open(ctx.replay, errors="surrogatepass"))
     case = d.get("case", {})
     if not isinstance(case, dict) or "script" not in case:
         print("replay file names no input:", json.dumps(d.get("broken", d), indent=1)[:3000])
